@@ -21,6 +21,7 @@ class Env:
         self.conn, self.recv, self.send = list(conn), list(recv), list(send)
         self.stop_after = stop_after
         self.trace = []
+        self.log = []           # everything the oracles need: ('att',) ('conn',k) ('recvcall',k) ('recv',k,data) ('send',k,frame) ...
         self.k = 0
         self.msgs = 0
         self.client = None
@@ -47,11 +48,13 @@ class FakeSock:
             e.trace.append('end')
             raise ScriptEnd()
         e.trace.append('att')
+        e.log.append(('att',))
         if e.conn.pop(0):
             self.ok = True
             e.k += 1
             self.k = e.k
             e.trace.append('conn%d' % self.k)
+            e.log.append(('conn', self.k))
         else:
             raise socket.error('connection refused')
 
@@ -59,11 +62,13 @@ class FakeSock:
         e = self.env
         if not self.ok:
             raise socket.error('not connected')
+        e.log.append(('recvcall', self.k))
         if not e.recv:
             e.trace.append('end')
             raise ScriptEnd()
         r = e.recv.pop(0)
         if r[0] == 'data':
+            e.log.append(('recv', self.k, unjbytes(r[1])))
             return unjbytes(r[1])
         if r[0] == 'timeout':
             raise socket.timeout('timed out')
@@ -76,7 +81,9 @@ class FakeSock:
         ok = e.send.pop(0) if e.send else True
         if not ok:
             e.trace.append('sendfail%d' % self.k)
+            e.log.append(('sendfail', self.k))
             raise socket.error('broken pipe')
+        e.log.append(('send', self.k, bytes(data)))
         op = data[4]
         body = data[5:]
         n = body[0]
@@ -118,11 +125,14 @@ def drive(case, ident='ident', secret='secret'):
     def on_msg(i, c, d):
         env.msgs += 1
         env.trace.append('M%s/%s/%s' % (fp(i.encode()), fp(c.encode()), fp(bytes(d))))
+        env.log.append(('msg', i, c, bytes(d)))
         if env.stop_after is not None and env.msgs >= env.stop_after:
+            env.log.append(('stop',))
             env.client.stop()
 
     def on_err(e):
         env.trace.append('E%s' % fp(e.encode()))
+        env.log.append(('err', e))
     outcome = None
     try:
         # subscriptions are made before run(); the constructor connects first
